@@ -480,7 +480,7 @@ func (e *BE) accessPath(v ssa.Value) (ssa.Value, string, bool) {
 			// field of an object reached through a pointer: only when the caller declared such fields stable
 			// (not mutated while the function runs) are two loads of the same path the same variable
 			if e.stablePtrFields && len(names) > 0 {
-				if _, isParam := addr.(*ssa.Parameter); isParam {
+				if _, isParam := addr.(*ssa.Parameter); isParam && !e.storedBefore(addr, names, x) {
 					return addr, "." + strings.Join(names, "."), true
 				}
 			}
